@@ -131,6 +131,8 @@ class Canon:
         self.P = P
         self.rand = {}
         self.depth = 0
+        self.commut = set()   # callee last-names whose arguments are rendered in sorted order
+        self.bare = set()     # names of params / mutated locals rendered as the bare name
 
     def builder_of(self, site, argi):
         b, _ = site
@@ -198,7 +200,7 @@ class Canon:
                 return 'fn:' + last(c['fn'])
             return 'const:' + (c.get('bytes') or c.get('ty') or '?')
         if k == 'param':
-            return '$' + e.name
+            return e.name if e.name in self.bare else '$' + e.name
         if k == 'field':
             inner = strip(e.args[0])
             # `expr?`  ==  branch(expr) as Continue .0
@@ -239,6 +241,8 @@ class Canon:
                     if bo is not None:
                         r = '[' + ', '.join(self.seq(*bo)) + ']'
                 args.append(r if r is not None else self.c(a))
+            if last(e.name) in self.commut:
+                args = sorted(args)
             ln = self.ABBREV.get(ln, ln)
             if e.name and e.name.startswith('gm_sm9::') and ln in ('g_mul', 'point_mul', 'point_add', 'point_sub', 'point_neg', 'point_double'):
                 if '<impl points::TwistPoint>' in e.name:
@@ -272,6 +276,8 @@ class Canon:
         if k == 'phi':
             return 'phi(%s)' % ' | '.join(sorted(self.c(a) for a in e.args))
         if k == 'local':
+            if e.name in self.bare:
+                return e.name
             return 'var:%s%s' % (e.name, ('=' + self.c(e.args[0])) if e.args else '')
         if k == 'discr':
             return 'discr(%s)' % self.c(e.args[0])
